@@ -309,35 +309,54 @@ func (e *Engine) guardCheck(vc *VC, lv *LVal, write bool) {}
 
 func (vc *VC) rankCheck(lv *LVal) {}
 
-func (vc *VC) lockAcquire(li *LockInv, lv *LVal) {
-	// havoc guarded fields and assume the invariant
-	ot := vc.eng.tkTypes[lv.TK]
-	if ot == nil {
-		ot = lv.ObjT
-	}
-	st, ok := ot.Underlying().(*types.Struct)
-	if !ok {
-		return
-	}
-	self := SV{L: []string{lv.Ref}}
-	for _, g := range li.Guards {
-		for i := 0; i < st.NumFields(); i++ {
-			if st.Field(i).Name() == g {
-				lo, hi := vc.eng.fieldRange(st, i)
-				vc.havocLoc(Loc{Space: 'O', TK: lv.TK, Lo: lo, Hi: hi, Ref: lv.Ref})
-				// a guarded map or slice: its contents are guarded too
-				switch ft := st.Field(i).Type().Underlying().(type) {
-				case *types.Map:
-					f := vc.load(&LVal{Space: 'O', TK: lv.TK, Leaf: lo, Typ: st.Field(i).Type(), ObjT: ot, Ref: lv.Ref})
-					mi := vc.eng.mapInfoOf(st.Field(i).Type())
-					_ = ft
-					vc.havocLoc(Loc{Space: 'M', TK: mi.Key, Ref: f.L[0]})
-				}
-			}
+func (vc *VC) guardLocs(li *LockInv, self SV) []Loc {
+	var out []Loc
+	for _, m := range li.Guards {
+		v := vc.evalValueFunc(m.GoName, li.Pkg, []SV{self}, vc.st, vc.st)
+		if v.Box == nil {
+			vc.fail("guard %q: cannot determine location", m.Expr)
 		}
+		inner, t := *v.Box, v.BoxT
+		if !m.All {
+			lv := vc.lvalOfSV(inner, t)
+			n := len(vc.eng.layoutOf(lv.Typ).L)
+			out = append(out, Loc{Space: lv.Space, TK: lv.TK, Lo: lv.Leaf, Hi: lv.Leaf + n, Ref: lv.Ref, Idx: lv.Idx, Desc: m.Expr})
+			continue
+		}
+		switch u := t.Underlying().(type) {
+		case *types.Slice:
+			tk := typeKey(u.Elem())
+			vc.eng.tkTypes[tk] = u.Elem()
+			out = append(out, Loc{Space: 'E', TK: tk, Ref: inner.L[0], Desc: m.Expr + "[*]"})
+		case *types.Map:
+			mi := vc.eng.mapInfoOf(t)
+			out = append(out, Loc{Space: 'M', TK: mi.Key, Ref: inner.L[0], Desc: m.Expr + "[*]"})
+		case *types.Pointer:
+			lv := vc.lvalOfSV(inner, t)
+			out = append(out, Loc{Space: 'O', TK: lv.TK, Ref: lv.Ref, Desc: "*" + m.Expr})
+		default:
+			vc.fail("guard %s[*]: unsupported type %s", m.Expr, t)
+		}
+	}
+	return out
+}
+
+func (vc *VC) lockAcquire(li *LockInv, lv *LVal) {
+	// another goroutine may have changed the guarded state, but only to a state that
+	// satisfies the invariant: havoc what the lock guards, then assume the invariant
+	self := SV{L: []string{lv.Ref}}
+	for _, l := range vc.guardLocs(li, self) {
+		vc.havocLoc(l)
 	}
 	g := vc.evalClause(li.GoName, li.Pkg, []SV{self}, vc.st, vc.entry)
 	vc.assume(g)
+	if vc.fi != nil && !vc.entryAtLock {
+		if _, ok := vc.fi.C.Attrs["atomic"]; ok {
+			// old() in the contract of a monitor method refers to the state at acquisition
+			vc.entryAtLock = true
+			vc.entry = vc.st.clone()
+		}
+	}
 }
 
 func (vc *VC) lockRelease(li *LockInv, lv *LVal, mode int) {
